@@ -104,9 +104,9 @@ fn binary_values() -> Vec<OrderedAig<u16>> {
                 latches: vec![OrderedLatch { next_state: (first + 1) as u16, initialization: [None, Some(true), Some(false)][k % 3] }],
                 outputs: vec![(first + 6) as u16, 1],
                 bad_state_properties: if k % 2 == 0 { vec![] } else { vec![2] },
-                invariant_constraints: vec![],
+                invariant_constraints: if k == 1 { vec![3, (first + 2) as u16] } else { vec![] },
                 justice_properties: if k == 3 { vec![vec![2, 3], vec![]] } else { vec![] },
-                fairness_constraints: vec![],
+                fairness_constraints: if k >= 2 { vec![2, (first + 4) as u16, 1] } else { vec![] },
                 and_gates: gates,
                 symbols: vec![sym(SymbolTarget::Input(0), "in put"), sym(SymbolTarget::Latch(0), "l"), sym(SymbolTarget::Output(1), "o")],
                 comment: c.map(|s| s.to_string()),
